@@ -140,6 +140,9 @@ func (m *c04Model) deliver(label string, frame []byte, seq int, covers []int, o 
 				env.Violate("C04/chunk-begin", "chunk ResendRequest begins at %s, expected number at that moment is %d", x.Str(7), Ta)
 			case !nowOpen:
 				env.Violate("C04/spurious-request", "ResendRequest 7=%s 16=%s although every number the peer has sent (below %d) has arrived by now", x.Str(7), x.Str(16), m.top())
+			case m.lastRRe != 0 && Ta <= m.lastRRe:
+				// a FOLLOWING chunk begins past the end of the one requested before
+				env.Violate("C04/chunk-overlap", "chunk ResendRequest 7=%s 16=%s while the chunk requested before it (%d..%d) is still being answered: expected number %d has not passed its end", x.Str(7), x.Str(16), m.lastRRb, m.lastRRe, Ta)
 			default:
 				e := x.IntOr(16, -1)
 				if e != m.marker && e < Ta {
